@@ -36,7 +36,7 @@ LEVEL_NOTE = ("Trusted: Coq kernel, extraction, translator harness/translate/c03
               "conversions/format specs or literal text needing escapes (those inputs are inside gap family F3 and excluded from the printer's oracle tie). "
               "Some gap predicates over-approximate (starred operands, every dict comprehension): they only weaken the theorem, never the check.")
 MODEL = ("Model.C03_run", "run_C03")
-COQ_TARGETS = ["Proofs/C03_expr.vo"]
+COQ_TARGETS = ["Proofs/C03_expr.vo", "Proofs/C03_repaired.vo"]
 RULE = ("exhaustive: every (parent node type, operand slot) x every representative child (all node types, all 4+13+2+10 operators) at depth 2, rotated "
         "over the 7 storing positions (assignment value, annotation, parameter annotation/default, returns, decorator, base class) with and without "
         "`from __future__ import annotations`; random ast trees to depth 6 (quick) in two streams: precedence-respecting (mostly gap-free) and unrestricted; "
@@ -53,8 +53,43 @@ warnings.filterwarnings("ignore", category=SyntaxWarning)
 warnings.filterwarnings("ignore", category=DeprecationWarning)
 
 
+# which repairs the tree under test contains (same detection as the translator's Gen/C03_tables.v [tree_fixes]); the python
+# mirrors below (expected tree, gap classifier used by search) follow them. REQUIRED_FIXES: repairs that have landed in
+# /repo -- if one of them is no longer detected the translator tie breaks and its finding is not excused.
+REQUIRED_FIXES: list = []
+FX = {f: False for f in c03_tables.FIXES}
+
+
+def load_fixes():
+    fixes, _ = c03_tables.read_fixes()
+    FX.update(fixes)
+    missing = [f for f in REQUIRED_FIXES if not fixes[f]]
+    if missing:
+        for f in missing:
+            FX[f] = True      # judge the tree against the repaired behaviour: what it now does wrong is a violation
+        raise c03_tables.TranslatorError(f"repairs that landed are no longer detected in expressions.py: {missing}")
+
+
+_FIXES_LOADED = [False]
+
+
+def ensure_fixes():
+    """The python mirrors need to know which repairs the tree contains, also when translate() did not run (replay,
+    isolated re-evaluation, search after a translator failure: then the flags stay as load_fixes left them)."""
+    if not _FIXES_LOADED[0]:
+        _FIXES_LOADED[0] = True
+        try:
+            load_fixes()
+        except c03_tables.TranslatorError:
+            pass
+
+
 def translate(ctx):
-    c03_tables.translate(ctx)
+    _FIXES_LOADED[0] = True
+    try:
+        c03_tables.translate(ctx)
+    finally:
+        load_fixes()
 
 
 # ---------------------------------------------------------------- abstraction: ast -> pyexpr s-expression
@@ -234,9 +269,13 @@ def py_subst(n, mode, injoin=False, infmt=False, env=None):
     if t is ast.JoinedStr:
         # literal text of an f-string is never an annotation (Griffe does take the literals of an f-string nested in a
         # replacement field for code: that corner is part of finding F3 and flagged by the model's classifier)
-        return ast.JoinedStr(values=[v if isinstance(v, ast.Constant) else py_subst(v, mode, True, infmt, env) for v in n.values])
+        nf = False if FX["fnest"] else infmt
+        return ast.JoinedStr(values=[v if isinstance(v, ast.Constant) else py_subst(v, mode, True, nf, env) for v in n.values])
     if t is ast.FormattedValue:
-        return ast.FormattedValue(value=py_subst(n.value, mode, injoin, True, env), conversion=n.conversion, format_spec=n.format_spec)
+        spec = n.format_spec
+        if FX["fconv"] and spec is not None:      # the spec is stored: strings in ITS replacement fields follow the rule too
+            spec = py_subst(spec, mode, injoin, False, env)
+        return ast.FormattedValue(value=py_subst(n.value, mode, injoin, True, env), conversion=n.conversion, format_spec=spec)
     if not isinstance(n, ast.AST):
         return n
     out = copy.copy(n)
@@ -310,7 +349,9 @@ def py_dotted(n):
             walk(x.body)
             return
         if t is ast.FormattedValue:
-            walk(x.value)      # a format spec is not stored (finding F3); its names are checked by the names test
+            walk(x.value)      # without the repair a format spec is not stored (finding F3); its names are checked by the names test
+            if FX["fconv"] and x.format_spec is not None:
+                walk(x.format_spec)
             return
         if t is ast.Constant or not isinstance(x, ast.AST):
             return
@@ -398,12 +439,20 @@ def visit_module(src: str):
 
 
 def observe_impl(expr):
-    """Canonical view of a stored expression: None | [str, class, flat pieces, one-layer pieces]."""
-    from griffe import Expr, ExprName
+    """Canonical view of a stored expression: None | [str, class, flat pieces, one-layer pieces, canonical_path, str(modernize())]."""
+    from griffe import Expr, ExprCall, ExprKeyword, ExprName
     if expr is None:
         return []
     if isinstance(expr, str):
-        return [[expr, "str", [[0, expr]], [[0, expr]]]]
+        return [[expr, "str", [[0, expr]], [[0, expr]], expr, expr]]
+
+    def canon(p):
+        if isinstance(p, ExprKeyword) and isinstance(p.function, str):
+            return "n/a"       # ExprKeyword.canonical_path raises when the called thing is a constant (finding F15): not compared
+        try:
+            return p.canonical_path
+        except Exception as e:  # noqa: BLE001
+            return "raises:" + type(e).__name__
 
     def pk(p):
         if isinstance(p, str):
@@ -415,8 +464,9 @@ def observe_impl(expr):
         return [2, type(p).__name__, str(p)]
 
     flat = [pk(p) for p in expr.iterate(flat=True)]
-    one = [[0, p] if isinstance(p, str) else [2, type(p).__name__, str(p)] for p in expr]
-    return [[str(expr), type(expr).__name__, flat, one]]
+    one = [[0, p] if isinstance(p, str) else [2, type(p).__name__, str(p), canon(p)] for p in expr]
+    mod = expr.modernize()
+    return [[str(expr), type(expr).__name__, flat, one, canon(expr), str(mod) if mod is expr else "modernize() is not the identity: " + str(mod)]]
 
 
 def expand_one_layer(expr):
@@ -482,8 +532,6 @@ def fv(v, conv=-1, spec=None):
 
 def prec_of(n) -> int:
     t = type(n)
-    if t is ast.GeneratorExp:
-        return 0
     if t in (ast.Yield, ast.YieldFrom):
         return 3
     if t in (ast.Lambda, ast.IfExp):
@@ -811,9 +859,10 @@ def parent_slots():
 # ---------------------------------------------------------------- running cases
 # families 2 (dict unpacking), 5 (dict comprehension spacing), 11 (in_subscript leak), 12 (non-finite literals) and the
 # decorator crash F13 were repaired in /repo: they have no classifier any more, so a recurrence is a violation
-FAMILY = {1: "C03-F1", 3: "C03-F3", 4: "C03-F4", 6: "C03-F6", 7: "C03-F7", 8: "C03-F8", 9: "C03-F9", 10: "C03-F10"}
-FAMILY_NAME = {1: "group", 3: "fstring", 4: "lambda_params", 6: "genexp", 7: "empty_slice_tuple", 8: "yield", 9: "int_attr", 10: "await"}
-PRIORITY = [10, 4, 3, 7, 9, 6, 8, 1]
+FAMILY = {1: "C03-F1", 3: "C03-F3", 4: "C03-F4", 6: "C03-F6", 7: "C03-F7", 8: "C03-F8", 9: "C03-F9", 10: "C03-F10", 11: "C03-F14"}
+FAMILY_NAME = {1: "group", 3: "fstring", 4: "lambda_params", 6: "genexp", 7: "empty_slice_tuple", 8: "yield", 9: "int_attr", 10: "await",
+               11: "literal_root"}
+PRIORITY = [10, 11, 4, 3, 7, 9, 6, 8, 1]
 BATCH = 40
 
 
@@ -878,7 +927,7 @@ def prepare(chunk, src):
         c["parse"] = bool(is_ann and not c["future"])
         c["top"] = top
         c["Eexp"] = py_subst(c["E"], False if c["parse"] else None, env=env)
-        c["query"] = ["run", top, 1 if c["parse"] else 0, A(c["E"], env)]
+        c["query"] = ["run", top, 1 if c["parse"] else 0, [[k, v] for k, v in sorted(env.items())], A(c["E"], env)]
 
 
 def pick_family(gaps):
@@ -1134,13 +1183,15 @@ def check_case(ctx, c, obj, out, stream):
         ctx.observe("outcome", "UNEXPLAINED-visit-raised")
         ctx.property_failure(cj, {"visit raised": type(obj).__name__ + ": " + str(obj)[:200]})
         return
-    if out == ["bad-input"] or len(out) != 9:
+    if out == ["bad-input"] or len(out) != 10:
         ctx.tie_failure("harness", "model rejected the abstraction", out, cj)
         return
-    wf, nopar, mbuild, mref, gaps, mnames, unsupported, msub, drops = out
+    wf, nopar, mbuild, mref, gaps, mnames, unsupported, msub, drops, lits = out
     if wf != 1 or nopar != 1:
         ctx.tie_failure("harness", "abstraction produced an ill-formed term", {"wf": wf, "no_parsed": nopar}, cj)
-    pg = py_gaps_top(Eexp, c["top"])
+    if lits != 1:
+        ctx.tie_failure("oracle", "Literal resolution: the harness's reading of the module's imports differs from the model's (lits_agree)", {}, cj)
+    pg = py_gaps_top(Eexp, c["top"], E)
     if pg != set(gaps):
         ctx.observe("py_gaps_mirror", "differs")
         ctx.tie_failure("harness", "python mirror of the gap classifier (used by search) differs from the model's", {"python": sorted(pg), "model": sorted(set(gaps))}, cj)
@@ -1155,7 +1206,7 @@ def check_case(ctx, c, obj, out, stream):
     if mbuild != impl:
         ctx.tie_failure("correspondence", "build/iterate/render(model) vs griffe.visit + str/iterate", {"model": str(mbuild)[:600], "impl": str(impl)[:600]}, cj)
     ctx.observe("class", impl[0][1] if impl else "None")
-    if mbuild and msub != [mbuild[0][0]]:
+    if mbuild and msub != [mbuild[0][0]] and 11 not in gaps:      # 11: rule_ok fails (finding F14), the rule theorem's hypothesis
         ctx.tie_failure("oracle", "model: build with parsing on differs from build of the substituted tree (C03_string_annotation_rule instance)",
                         {"direct": mbuild[0][0], "substituted": msub}, cj)
     # (O) reference printer vs CPython's parser; names of the model's substituted tree vs the harness's
@@ -1187,30 +1238,60 @@ def check_case(ctx, c, obj, out, stream):
     ctx.property_failure(cj, detail, finding=FAMILY[fam] if fam else None)
 
 
-WITNESSES = {
-    "C03-F1": ("assign", False, "(a + b) * c"),
-    "C03-F3": ("assign", False, "f'{a!r:>{w}}'"),
-    "C03-F4": ("assign", False, "lambda *a, k: 0"),
-    "C03-F6": ("assign", False, "(x for x in y)"),
-    "C03-F7": ("assign", False, "a[()]"),
-    "C03-F8": ("assign", False, "[(yield)]"),
-    "C03-F9": ("assign", False, "(1).real"),
-    "C03-F10": ("assign", False, "f(await x)"),
-}
+# (finding, repair that removes it or None, family, position, future, expression)
+WITNESSES = [
+    ("C03-F1", "prec", 1, "assign", False, "(a + b) * c"),
+    ("C03-F3", "fconv", 3, "assign", False, "f'{a!r:>{w}}'"),
+    ("C03-F3", "fesc", 3, "assign", False, "f'{a}{{'"),
+    ("C03-F3", "fglue", 3, "assign", False, "f'{ {1: 2}[1]}'"),
+    ("C03-F3", "fnest", 3, "assign", False, "f'{f\"x{a}\"}'"),
+    ("C03-F4", "lambda", 4, "assign", False, "lambda *a, k: 0"),
+    ("C03-F4", "lambda", 4, "assign", False, "lambda p, /: 0"),
+    ("C03-F6", "genexp", 6, "assign", False, "(x for x in y)"),
+    ("C03-F7", "tuple0", 7, "assign", False, "a[()]"),
+    ("C03-F8", "prec", 8, "assign", False, "[(yield)]"),
+    ("C03-F8", None, 8, "param_default", False, "(yield)"),
+    ("C03-F9", "intattr", 9, "assign", False, "(1).real"),
+    ("C03-F10", None, 10, "assign", False, "f(await x)"),
+    ("C03-F14", "litroot", 11, "annassign", False, "f().typing.Literal['int']"),
+]
 
 
 def replay_witnesses(ctx):
-    cases = [{"src": s, "pos": p, "future": f, "label": fid} for fid, (p, f, s) in WITNESSES.items()]
+    """Every finding's witness is replayed on the implementation. A witness whose repair is in the tree must now pass and
+    must not be classified; one whose repair is absent must fail and be classified in its family by the model."""
+    cases = [{"src": s_, "pos": p, "future": f, "label": (fid, fix, fam)} for fid, fix, fam, p, f, s_ in WITNESSES]
+    reproduced = {}
     for src, chunk in build_modules(cases):
         prepare(chunk, src)
         mod = visit_module(src)
         outs = ctx.model([c["query"] for c in chunk])
         for c, out in zip(chunk, outs):
+            fid, fix, fam = c["label"]
             ok, _ = direct_eval(impl_at(mod, c["pos"], c["k"]), c["Eexp"], c["top"])
-            fam = int(c["label"].split("F")[1])
-            ctx.witness(c["label"], (not ok))
-            if fam not in out[4]:
-                ctx.tie_failure("oracle", f"model: witness of {c['label']} is not classified in family {fam}", {"gaps": out[4]}, case_json(c))
+            reproduced[fid] = reproduced.get(fid, False) or (not ok)
+            expected = fix is None or not FX[fix]
+            ctx.observe("witness", f"{fid}/{fix}:" + ("fails" if not ok else "passes"))
+            if (fam in out[4]) != expected:
+                ctx.tie_failure("oracle", f"model: witness of {fid} ({fix}) " + ("is not" if expected else "is still") + f" classified in family {fam}",
+                                {"gaps": out[4]}, case_json(c))
+            if ok and expected:
+                ctx.tie_failure("oracle", f"witness of {fid} no longer fails although its repair ({fix}) is not detected in the tree", {}, case_json(c))
+            if not ok and not expected:
+                ctx.property_failure(case_json(c), {"witness of a repaired defect fails again": fid})
+    for fid, r in reproduced.items():
+        ctx.witness(fid, r)
+    # F15 (not on the rendering path): ExprKeyword.canonical_path of a keyword passed to a called constant
+    try:
+        call = visit_module("v0 = 's'(k=1)\n").members["v0"].value
+        kw = [p for p in call if not isinstance(p, str)][-1]
+        try:
+            kw.canonical_path
+            ctx.witness("C03-F15", False)
+        except AttributeError:
+            ctx.witness("C03-F15", True)
+    except Exception:  # noqa: BLE001
+        ctx.witness("C03-F15", False)
 
 
 def corpus_cases():
@@ -1256,7 +1337,12 @@ def string_cases(ctx, count):
     L = ast.Load()
     lits = [nm("Literal"), nm("Lit"), ast.Attribute(value=nm("typing"), attr="Literal", ctx=L), ast.Attribute(value=nm("t"), attr="Literal", ctx=L),
             ast.Attribute(value=nm("te"), attr="Literal", ctx=L), ast.Attribute(value=nm("a"), attr="Literal", ctx=L), nm("List"), nm("Optional"),
-            ast.Attribute(value=ast.Attribute(value=nm("a"), attr="typing", ctx=L), attr="Literal", ctx=L)]
+            ast.Attribute(value=ast.Attribute(value=nm("a"), attr="typing", ctx=L), attr="Literal", ctx=L),
+            # chains whose root is not a name: only the tail is looked at by the unrepaired _build_subscript (finding F14)
+            ast.Attribute(value=ast.Attribute(value=ast.Call(func=nm("f"), args=[], keywords=[]), attr="typing", ctx=L), attr="Literal", ctx=L),
+            ast.Attribute(value=ast.Attribute(value=ast.BoolOp(op=ast.Or(), values=[nm("a"), nm("b")]), attr="typing_extensions", ctx=L), attr="Literal", ctx=L),
+            ast.Attribute(value=ast.Attribute(value=const("s"), attr="typing", ctx=L), attr="Literal", ctx=L),
+            ast.Attribute(value=ast.Attribute(value=ast.Subscript(value=nm("a"), slice=nm("b"), ctx=L), attr="x", ctx=L), attr="Literal", ctx=L)]
     strs = CODE_STRINGS + DATA_STRINGS
 
     def s():
@@ -1389,6 +1475,7 @@ def history_sequences(ctx, count):
 
 
 def explore(ctx):
+    ensure_fixes()
     STATE.update(visited=[])
     try:
         explore_streams(ctx)
@@ -1422,22 +1509,36 @@ def prepare_one(c):
 
 # ---------------------------------------------------------------- python mirror of the gap classifier (used by search(), cross-checked in explore)
 def fam_of(n) -> int:
-    t = type(n)
-    return 6 if t is ast.GeneratorExp else 8 if t in (ast.Yield, ast.YieldFrom) else 1
+    return 8 if type(n) in (ast.Yield, ast.YieldFrom) else 1
 
 
-def _need(req, c):
+def _need_top(req, c):
     return {fam_of(c)} if prec_of(c) < req else set()
 
 
+def _need(req, c):
+    return set() if FX["prec"] else _need_top(req, c)
+
+
 def _has_unsafe(s: str) -> bool:
-    return any(ord(ch) < 32 or ord(ch) > 126 or ch in "'\\" for ch in s)
+    return any(ord(ch) < 32 or ord(ch) == 127 or ch in "'\\" for ch in s)
 
 
 def py_gaps(n, direct=False, isub=False, ijoin=False, ifmt=False) -> set:
-    """Mirror of gaps (coq/Model/C03_spec.v) on the expected ast tree."""
+    """Mirror of gaps (coq/Model/C03_spec.v) on the expected ast tree, for the repairs FX the tree contains."""
     g1 = lambda c: py_gaps(c, False, False, ijoin, ifmt)
     ga = lambda req, c: _need(req, c) | g1(c)
+
+    def fparts(nfmt, values):
+        out = set()
+        for c in values:
+            if isinstance(c, ast.Constant):
+                if nfmt or (not FX["fesc"] and ("{" in c.value or "}" in c.value or _has_unsafe(c.value))):
+                    out.add(3)
+            else:
+                out |= py_gaps(c, False, False, True, nfmt)
+        return out
+
     t = type(n)
     out = set()
     if t is ast.Name:
@@ -1449,7 +1550,7 @@ def py_gaps(n, direct=False, isub=False, ijoin=False, ifmt=False) -> set:
         return out
     if t is ast.Attribute:
         out |= ga(18, n.value)
-        if isinstance(n.value, ast.Constant) and isinstance(n.value.value, int) and not isinstance(n.value.value, bool):
+        if isinstance(n.value, ast.Constant) and isinstance(n.value.value, int) and not isinstance(n.value.value, bool) and not FX["intattr"]:
             out.add(9)
         return out
     if t is ast.BinOp:
@@ -1469,10 +1570,15 @@ def py_gaps(n, direct=False, isub=False, ijoin=False, ifmt=False) -> set:
             out |= ga(9, c)
         return out
     if t is ast.Call:
-        req = 0 if (len(n.args) == 1 and not n.keywords and isinstance(n.args[0], ast.GeneratorExp)) else 4
         out |= ga(18, n.func)
+        if len(n.args) == 1 and not n.keywords and isinstance(n.args[0], ast.GeneratorExp):
+            g = n.args[0]       # shares the call's parentheses
+            out |= ga(4, g.elt)
+            for c in g.generators:
+                out |= g1(c)
+            return out
         for a in n.args:
-            out |= ga(req, a)
+            out |= ga(4, a)
         for k in n.keywords:
             out |= g1(k)
         return out
@@ -1487,7 +1593,7 @@ def py_gaps(n, direct=False, isub=False, ijoin=False, ifmt=False) -> set:
                 out |= ga(4, c)
         return out
     if t is ast.Tuple:
-        if direct and not n.elts:
+        if direct and not n.elts and not FX["tuple0"]:
             out.add(7)
         for c in n.elts:
             out |= _need(4, c) | py_gaps(c, False, False, ijoin, ifmt)
@@ -1507,17 +1613,19 @@ def py_gaps(n, direct=False, isub=False, ijoin=False, ifmt=False) -> set:
         return ga(5, n.body) | ga(5, n.test) | ga(4, n.orelse)
     if t is ast.Lambda:
         po, pk, vp, ko, vk = lambda_params(n.args)
-        if (po and not pk) or (vp and ko):
+        if ((po and not pk) or (vp and ko)) and not FX["lambda"]:
             out.add(4)
         for _, d in po + pk + ko:
             if d is not None:
                 out |= _need(4, d) | py_gaps(d, False, False, False, False)
         return out | ga(4, n.body)
     if t is ast.NamedExpr:
-        return g1(n.target) | ga(4, n.value)
+        return ga(18, n.target) | ga(4, n.value)
     if t is ast.Starred:
         return ga(9, n.value)
     if t in (ast.ListComp, ast.SetComp, ast.GeneratorExp):
+        if t is ast.GeneratorExp and not FX["genexp"]:
+            out.add(6)
         out |= ga(4, n.elt)
         for g in n.generators:
             out |= g1(g)
@@ -1533,23 +1641,20 @@ def py_gaps(n, direct=False, isub=False, ijoin=False, ifmt=False) -> set:
             out |= ga(5, c)
         return out
     if t is ast.JoinedStr:
-        for c in n.values:
-            if isinstance(c, ast.Constant):
-                if ifmt or "{" in c.value or "}" in c.value or _has_unsafe(c.value):
-                    out.add(3)
-            else:
-                out |= py_gaps(c, False, False, True, ifmt)
-        return out
+        return fparts(False if FX["fnest"] else ifmt, n.values)
     if t is ast.FormattedValue:
-        if n.conversion != -1 or n.format_spec is not None:
+        if not FX["fconv"] and (n.conversion != -1 or n.format_spec is not None):
             out.add(3)
         try:
             txt = ast.unparse(n.value)
         except Exception:  # noqa: BLE001
             txt = ""
-        if txt.startswith("{") and prec_of(n.value) >= 5:
+        if not FX["fglue"] and txt.startswith("{") and prec_of(n.value) >= 5:
             out.add(3)
-        return out | _need(5, n.value) | py_gaps(n.value, False, False, ijoin, True)
+        out |= _need(5, n.value) | py_gaps(n.value, False, False, ijoin, True)
+        if FX["fconv"] and n.format_spec is not None:
+            out |= fparts(False, n.format_spec.values) if isinstance(n.format_spec, ast.JoinedStr) else {3}
+        return out
     if t is ast.Yield:
         return ga(4, n.value) if n.value is not None else out
     if t is ast.YieldFrom:
@@ -1559,13 +1664,44 @@ def py_gaps(n, direct=False, isub=False, ijoin=False, ifmt=False) -> set:
     raise ValueError(t.__name__)
 
 
-def py_gaps_top(E, top) -> set:
-    return _need(top, E) | py_gaps(E)
+def quirk_canon(v):
+    """What the unrepaired _build_subscript computes for a chain whose root is not a name (the root is forgotten)."""
+    if not isinstance(v, ast.Attribute):
+        return None
+    r = v.value
+    if isinstance(r, ast.Name):
+        return None
+    if isinstance(r, ast.Attribute):
+        q = quirk_canon(r)
+        return None if q is None else q + "." + v.attr
+    if isinstance(r, ast.Constant):
+        return "str." + v.attr
+    return v.attr
+
+
+def py_has_quirk(n) -> bool:
+    """Mirror of has_quirk (finding F14) on the SOURCE tree, contents of parseable string constants included."""
+    for x in ast.walk(n):
+        if isinstance(x, ast.Subscript) and quirk_canon(x.value) in LITERAL_PATHS:
+            return True
+        if isinstance(x, ast.Constant) and isinstance(x.value, str):
+            p = try_parse(x.value)
+            if p is not None and py_has_quirk(p):
+                return True
+    return False
+
+
+def py_gaps_top(Eexp, top, E=None) -> set:
+    out = _need_top(top, Eexp) | py_gaps(Eexp)
+    if E is not None and not FX["litroot"] and py_has_quirk(E):
+        out.add(11)
+    return out
 
 
 def search(ctx):
     """A tie broke (or the model could not be built): implementation vs CPython only, classified by the python mirror
     of the gap predicates. The first failing input outside every known family becomes the replay."""
+    ensure_fixes()
     STATE.update(visited=[])
     try:
         search_streams(ctx)
@@ -1612,7 +1748,7 @@ def search_streams(ctx):
             ok, detail = direct_eval(obj, c["Eexp"], c["top"])
             if ok:
                 continue
-            gaps = py_gaps_top(c["Eexp"], c["top"])
+            gaps = py_gaps_top(c["Eexp"], c["top"], c["E"])
             fam = pick_family(gaps)
             if set(detail) <= {"names", "dotted_paths"}:
                 fam = 10 if 10 in gaps else 3 if 3 in gaps else None
@@ -1624,6 +1760,7 @@ def search_streams(ctx):
 
 
 def replay(ctx, data):
+    ensure_fixes()
     case = data.get("failing_input") or {}
     if "expression" not in case:
         print("replay names no input:", data.get("no_longer_checks"))
@@ -1650,7 +1787,7 @@ def replay(ctx, data):
         print("expected tree:", dump(c["Eexp"]))
         print("reparsed     :", None if obj is None else parse_back(str(obj), c["top"]))
         print("direct check :", direct_eval(obj, c["Eexp"], c["top"]))
-        print("python gaps  :", sorted(py_gaps_top(c["Eexp"], c["top"])))
+        print("python gaps  :", sorted(py_gaps_top(c["Eexp"], c["top"], c["E"])))
         if ctx.driver is not None:
             out = ctx.model([c["query"]])[0]
             print("model        :", {"build": out[2], "ref": out[3], "gaps": out[4]})
@@ -1660,5 +1797,6 @@ def replay(ctx, data):
 if __name__ == "__main__":
     import sys
     if "--isolated" in sys.argv:
+        ensure_fixes()
         ok, detail = eval_with_history(json.loads(sys.stdin.read()))
         print(json.dumps({"ok": bool(ok), "detail": {k: str(v)[:300] for k, v in detail.items()}}))
